@@ -28,6 +28,39 @@ def refine(rng, h):
     return out
 
 
+def config_scale(res, rng, k):
+    """scaling under a changed configuration: the number of digits to which aggregated ranges are rounded is read from globalConfig when the
+    counter is called.  With globalConfig.atol = 12, a history of small integers scaled by c = 1e-9 (ranges of 1e-9 .. 1e-7, resolved by 12
+    digits, not by the default 8) must give the table of the unscaled history with every range multiplied by c - for every counter"""
+    core.import_impl()
+    from ffpack import lcc
+    for _ in range(k):
+        h, _s = core.gen_history(rng, maxlen=14, closed=(rng.random() < 0.5))
+        if max(abs(v) for v in h) >= 100 or len(set(h)) < 2:
+            continue
+        c = rng.choice([1e-9, 1e-10, 2e-9])
+        for name in cyc.NAMES:
+            if not cyc.valid_for(name, h):
+                continue
+            f = getattr(lcc, cyc.API[name])
+            res.evaluations += 1
+            res.stat('kind_scale_under_atol_12')
+            try:
+                with cyc.with_atol(12):
+                    t1 = f([float(v) for v in h])
+                    tc = f([v * c for v in h])
+            except Exception as e:  # noqa
+                res.failures.append({'signature': f'C03:{name}:config-scale:raises:{enc_list(h)}', 'clause': 'valid history raised under globalConfig.atol = 12: ' + repr(e)[:100],
+                                     'api': cyc.API[name], 'input': h, 'scale_factor': c})
+                continue
+            t1 = [] if t1 == [[]] else t1
+            tc = [] if tc == [[]] else tc
+            ok = len(t1) == len(tc) and all(abs(float(b[0]) - c * float(a[0])) <= 2e-12 and float(a[1]) == float(b[1]) for a, b in zip(t1, tc))
+            if not ok:
+                res.failures.append({'signature': f'C03:{name}:config-scale:{enc_list(h)}:{c}', 'clause': 'scale (globalConfig.atol = 12, c = %g): the table of c*x is not c times the table of x' % c,
+                                     'api': cyc.API[name], 'input': h, 'scale_factor': c, 'impl_output': {'table_x': [list(map(float, r)) for r in t1][:6], 'table_cx': [list(map(float, r)) for r in tc][:6]}})
+
+
 def explore(res, rng, n, exhaustive=None):
     base = [([0, -3, 0, 1], 0), ([5, 11, 0], 1), ([0, 2, 1, 2, 0], 0)]
     cases = base + [core.gen_history(rng, maxlen=25, closed=(rng.random() < 0.3)) for _ in range(n)]
@@ -97,6 +130,7 @@ def explore(res, rng, n, exhaustive=None):
             if 'error' not in a and 'error' not in b:
                 reqs.append(f'c03e 1 0 {c05.enc_itable(a["table"])} {c05.enc_itable(b["table"])}')
                 meta.append(('refine-default-levels', 'astmLevelCrossingCounting', h, s, h2, a, b))
+    config_scale(res, rng, max(12, n // 40))
     for (kind, api, h, s, h2, a, b), ans in zip(meta, core.driver_batch(reqs)):
         if ans != 'ok':
             res.failures.append({'signature': f'C03:{api}:{kind}:{enc_list(h)}->{enc_list(h2)}', 'clause': kind, 'api': api,
